@@ -63,9 +63,10 @@ Definition sub_granted (s : st) (pe : peer) (c : reg_call) : bool :=
   | _, _ => false
   end.
 
-(* an entry named by a delete call: client address (device defaulted to the sender's) and server feature *)
+(* an entry named by a delete call: an entry of the calling connection (fix c14f34e) with that client
+   address (device defaulted to the sender's) and server feature *)
 Definition named_by (pe : peer) (c : reg_call) (sf : lfeat) (x : entry) : bool :=
-  eqb_faddr (e_cli x) (default_dev pe (rc_cli c)) && same_srv x sf.
+  N.eqb (e_ski x) (p_ski pe) && eqb_faddr (e_cli x) (default_dev pe (rc_cli c)) && same_srv x sf.
 
 (* C08: a delete succeeds iff both features exist and the named subscription exists *)
 Definition sub_deletable (s : st) (pe : peer) (c : reg_call) : bool :=
